@@ -57,19 +57,22 @@ MANIFEST = {
             "multifile) and instantiate_classes (the empty configuration included) write only identities they created themselves "
             "(exactly: at most the containers recreate_branches still shares, i.e. the open OrderedDict finding), that get_defaults hands "
             "out copies, that two instantiations create disjoint object sets, one per spec, that every `finally` bracket restores its "
-            "variable for every body and outcome, and - C08_history_exact/partial/continues - that in a history of any length over these "
+            "variable for every body and outcome, and - C08_history_exact/partial/continues/all_held - that in a history of any length over these "
             "operations plus set_defaults/add_argument(default=) (the parser keeps the caller's object: modelled so) no object the caller "
-            "held at the start and no declared default is ever written, whichever earlier results are fed back as arguments. The model's "
+            "holds when an operation starts (own objects AND every earlier result) and no declared default is ever written, whichever "
+            "earlier results are fed back as arguments. The model's "
             "copy policy, copy sites (ast), strip_meta-of-empty behaviour and 21 live entry-point probes and the bracket table are "
             "regenerated from /repo each run and pinned by tie_* theorems (an entry point that cannot be probed is a broken tie); model "
             "and code are compared on generated values, operations and histories; the property itself is evaluated by deep snapshots "
             "around every real call.",
     "level_note": "Trusted: Lean kernel; axioms propext/Quot.sound/Classical.choice only; the extractors (ast + live probes); the snapshot "
-                  "harness. The mutators of the model are worst case (write every container of the working copy). The history theorem "
-                  "protects what the caller held at the start and the declared defaults; that a LATER operation does not write an EARLIER "
-                  "result is checked by the oracle on real histories, not proved (it needs a preservation lemma for `sharedMut = []`). "
-                  "Outside: aliasing inside one value, objects of user classes, link compute_fn bodies, jsonnet/ext_vars, fsspec/url paths; "
-                  "os.environ / sys.argv / cwd are observed by the oracle and covered in the model only through the bracket theorems.",
+                  "harness. The mutators of the model are worst case (write every container of the working copy). C08_history_all_held "
+                  "protects everything the caller holds at the moment an operation starts, results of all earlier operations included "
+                  "(two invariants carried through every primitive: sharedMut = [] and all identities below the counter); dict-subclass "
+                  "values are a kind of their own (probed: copied with their entries, written in place), F29/F31 kept as regression "
+                  "theorems. Outside: aliasing inside one value, objects of user classes, link compute_fn bodies, jsonnet/ext_vars, "
+                  "fsspec/url paths; os.environ / sys.argv / cwd are observed by the oracle and covered in the model only through the "
+                  "bracket theorems.",
 }
 
 FINDING = "C08-ordereddict-shared"
@@ -157,6 +160,10 @@ class MyList(list):
     """a list subclass (recreate_branches copies it into a plain list)"""
 
 
+class MyDict(dict):
+    """a plain dict subclass: its instances carry a `__dict__` of their own (F31: recreate_branches iterated that one)"""
+
+
 def exotic_value(rng):
     """container kinds beyond list/tuple/dict for an Any-typed slot: dict and list subclasses, frozenset, set of tuples,
     and the two kinds of the open finding (OrderedDict, namedtuple)"""
@@ -182,7 +189,7 @@ def kind_of(x):
     if isinstance(x, collections.OrderedDict):
         return "odict"
     if isinstance(x, dict):
-        return "dict"
+        return "dict" if type(x) is dict else "dictsub"
     if isinstance(x, list):
         return "list"
     if isinstance(x, tuple):
@@ -200,7 +207,7 @@ def children(x, kind):
     """[(key, child)] in a deterministic order"""
     if kind == "ns":
         return list(vars(x).items())
-    if kind in ("dict", "odict"):
+    if kind in ("dict", "odict", "dictsub"):
         return [(k if isinstance(k, str) else repr(k), v) for k, v in x.items()]
     if kind == "set":
         return [("", v) for v in sorted(x, key=repr)]
@@ -922,7 +929,7 @@ def gen_tree(rng, depth=0, hashable=False, finding=False):
     r = rng.random()
     if depth >= 4 or r < 0.25:
         return rng.choice([0, 1, "s", None, 2.5, True])
-    kinds = ["tuple", "tuple", "ntuple"] if hashable else ["list", "list", "tuple", "tuple", "set", "dict", "dict", "ns", "odict", "ntuple"]
+    kinds = ["tuple", "tuple", "ntuple"] if hashable else ["list", "list", "tuple", "tuple", "set", "dict", "dict", "ns", "odict", "ntuple", "dictsub", "dictsub"]
     if not finding:
         kinds = [k for k in kinds if k not in ("odict", "ntuple")] or ["tuple"]
     k = rng.choice(kinds)
@@ -938,6 +945,9 @@ def gen_tree(rng, depth=0, hashable=False, finding=False):
     keys = rng.sample(["a", "b", "c", "__path__", "class_path", "__orig__"], min(n, 3))
     if k == "dict":
         return {key: gen_tree(rng, depth + 1, False, finding) for key in keys}
+    if k == "dictsub":
+        items = [(key, gen_tree(rng, depth + 1, False, finding)) for key in keys]
+        return MyDict(items) if rng.random() < 0.6 else collections.defaultdict(list, items)
     if k == "odict":
         return collections.OrderedDict((key, gen_tree(rng, depth + 1, False, finding)) for key in keys)
     ns = Namespace()
@@ -993,7 +1003,7 @@ def gen_changing(rng, depth=0, finding=False, hashable=False):
     r = rng.random()
     if depth >= 3 or r < 0.2:
         return int, str(rng.randint(0, 9))
-    kinds = ["tuple"] if hashable else ["list", "list", "tuple", "tuple", "dict", "set"] + (["odict", "ntuple"] if finding else [])
+    kinds = ["tuple"] if hashable else ["list", "list", "tuple", "tuple", "dict", "set", "dictsub"] + (["odict", "ntuple"] if finding else [])
     k = rng.choice(kinds)
     if k == "list":
         t, v = gen_changing(rng, depth + 1, finding)
@@ -1010,6 +1020,8 @@ def gen_changing(rng, depth=0, finding=False, hashable=False):
     items = [("a", v)] + ([("b", regen(rng, t, v))] if rng.random() < 0.5 else [])
     if k == "odict":
         return Dict[str, t], collections.OrderedDict(items)
+    if k == "dictsub":
+        return Dict[str, t], MyDict(items)
     return Dict[str, t], dict(items)
 
 
@@ -1026,7 +1038,7 @@ def gen_serialising(rng, depth=0, finding=False, hashable=False):
     r = rng.random()
     if depth >= 3 or r < 0.2:
         return m.Color, rng.choice(list(m.Color))
-    kinds = ["tuple"] if hashable else ["list", "list", "tuple", "tuple", "dict", "set"] + (["odict", "ntuple"] if finding else [])
+    kinds = ["tuple"] if hashable else ["list", "list", "tuple", "tuple", "dict", "set", "dictsub"] + (["odict", "ntuple"] if finding else [])
     k = rng.choice(kinds)
     if k == "list":
         t, v = gen_serialising(rng, depth + 1, finding)
@@ -1042,6 +1054,8 @@ def gen_serialising(rng, depth=0, finding=False, hashable=False):
     items = [("a", v)] + ([("b", copy.deepcopy(v))] if rng.random() < 0.5 else [])
     if k == "odict":
         return Dict[str, t], collections.OrderedDict(items)
+    if k == "dictsub":
+        return Dict[str, t], collections.defaultdict(list, items)
     return Dict[str, t], dict(items)
 
 
@@ -1106,6 +1120,8 @@ def chain_value(kinds, leaf):
             v = {"a": v}
         elif k == "odict":
             v = collections.OrderedDict(a=v)
+        elif k == "dictsub":
+            v = MyDict(a=v)
         elif k == "ns":
             v = Namespace(a=v)
     return v
@@ -1116,12 +1132,12 @@ def chain_type(kinds, leaf_type):
 
     t = leaf_type
     for k in reversed(kinds):
-        t = {"list": List[t], "tuple": Tuple[t], "ntuple": Tuple[t], "set": Set[t], "dict": Dict[str, t], "odict": Dict[str, t]}[k]
+        t = {"list": List[t], "tuple": Tuple[t], "ntuple": Tuple[t], "set": Set[t], "dict": Dict[str, t], "odict": Dict[str, t], "dictsub": Dict[str, t]}[k]
     return t
 
 
 def exhaustive_chains(ctx, batch, depth):
-    """all chains of container kinds up to `depth`: recreate_branches over 7 kinds, adapt_typehints (both directions) over 6"""
+    """all chains of container kinds up to `depth`: recreate_branches over 8 kinds, adapt_typehints (both directions) over 7"""
     import itertools
 
     from jsonargparse._namespace import recreate_branches
@@ -1130,7 +1146,7 @@ def exhaustive_chains(ctx, batch, depth):
     m = usermod()
     n_rec = n_ad = 0
     for d in range(1, depth + 1):
-        for kinds in itertools.product(["list", "tuple", "set", "dict", "ns", "odict", "ntuple"], repeat=d):
+        for kinds in itertools.product(["list", "tuple", "set", "dict", "ns", "odict", "ntuple", "dictsub"], repeat=d):
             v = chain_value(kinds, 0)
             if v is None:
                 continue
@@ -1148,7 +1164,7 @@ def exhaustive_chains(ctx, batch, depth):
                 return None if ms == real_shape else "sharing shape differs: real %s model %s" % (real_shape, ms)
 
             batch.add(model_case("recreate", reg, ["x"]), check, {"kind": "recreate", "which": "chain", "value": repr(v)[:300]})
-        for kinds in itertools.product(["list", "tuple", "set", "dict", "odict", "ntuple"], repeat=d):
+        for kinds in itertools.product(["list", "tuple", "set", "dict", "odict", "ntuple", "dictsub"], repeat=d):
             for ser in (False, True):
                 v = chain_value(kinds, m.Color.red if ser else "1")
                 if v is None:
@@ -1320,7 +1336,7 @@ def run_scenario(ctx, batch, sc, origin, only_op=None):
             # writes to the namespace handed out must not reach the declared defaults
             res = ob.result
             decl = declared_registry(parser)
-            shared = [i for kind, i in shape_of_result(res, decl) if i and kind in ("list", "dict", "ns", "odict")]
+            shared = [i for kind, i in shape_of_result(res, decl) if i and kind in ("list", "dict", "ns", "odict", "dictsub")]
             if shared and not all(finding_signature(decl, i) for i in shared):
                 ctx.violation("get_defaults() hands out the declared default object itself", dict(replay, kind="oracle", op="get_defaults", only_op="get_defaults", changes=[decl.describe(i) for i in shared[:4]]))
             elif shared and ctx.is_open(FINDING):
@@ -1851,6 +1867,9 @@ def default_kind_cases(ctx):
         ("dict-typed-defaultdict", Dict[str, List[int]], lambda: collections.defaultdict(list, a=[1])),
         ("dataclass-instance", DC, lambda: DC()),
         ("lazy_instance", m.Base, lambda: lazy_instance(m.Sub, x=4)),
+        ("lazy_instance-with-containers", m.Base, lambda: lazy_instance(m.Sub, x=4, y=(3, [4, 5]))),
+        ("spec-default", m.Base, lambda: {"class_path": MODNAME + ".Sub", "init_args": {"x": 7, "y": [1, [2]]}}),
+        ("spec-default-nested", m.Base, lambda: {"class_path": MODNAME + ".Sub", "init_args": {"x": 7, "inner": {"class_path": MODNAME + ".Other", "init_args": {"z": {"k": ["red"]}}}}}),
         ("path-object", Optional[Path_fr], lambda: Path_fr(exists_file())),
         ("list-of-paths", List[Path_fr], lambda: [Path_fr(exists_file())]),
         ("input-form-strings", Dict[str, List[int]], lambda: {"k": ["1", "2"]}),
@@ -1863,7 +1882,7 @@ def default_kind_cases(ctx):
             label = "default-kind:%s:%s" % (name, how)
             given = mk()
             try:
-                p = ArgumentParser(exit_on_error=False)
+                p = ArgumentParser(exit_on_error=False, env_prefix="DK", default_env=False)
                 if how == "add_argument":
                     p.add_argument("--v", type=typ, default=given)
                 else:
@@ -1877,6 +1896,8 @@ def default_kind_cases(ctx):
             done.append(label)
             rep = {"kind": "default-kind", "case": label, "only_op": label}
             state = {}
+            class_typed = typ is m.Base   # there also compare what get_defaults() answers before/after each call
+            _LAST_DV.clear()
 
             def parse(p=p, state=state):
                 state["cfg"] = p.parse_args([])
@@ -1888,14 +1909,28 @@ def default_kind_cases(ctx):
                    ("instantiate_classes:second", lambda p=p, state=state: p.instantiate_classes(state["cfg"])),
                    ("parse_object", lambda p=p: p.parse_object({})),
                    ("validate", lambda p=p, state=state: p.validate(state["cfg"])),
-                   ("format_help", lambda p=p: p.format_help())]
+                   ("format_help", lambda p=p: p.format_help()),
+                   ("parse_string:empty", lambda p=p: p.parse_string("{}")),
+                   ("parse_env:empty", lambda p=p: p.parse_env({}))]
+            if typ is m.Base:
+                # every parse route that checks a value against an EMPTY previous configuration, with a value that selects another
+                # class than the declared default spec (whose init_args the other class does not accept) and with init_args only
+                other = json.dumps({"class_path": MODNAME + ".Other", "init_args": {"z": {"k": ["red"]}}})
+                only_init = json.dumps({"init_args": {"x": 9}})
+                ops += [("parse_string:other-class", lambda p=p, other=other: p.parse_string('{"v": %s}' % other)),
+                        ("parse_env:other-class", lambda p=p, other=other: p.parse_env({"DK_V": other})),
+                        ("parse_args:other-class", lambda p=p, other=other: p.parse_args(["--v=" + other])),
+                        ("parse_object:other-class", lambda p=p, other=other: p.parse_object({"v": json.loads(other)})),
+                        ("parse_string:init_args-only", lambda p=p, only_init=only_init: p.parse_string('{"v": %s}' % only_init)),
+                        ("parse_args:init_args-only", lambda p=p: p.parse_args(["--v.init_args.x=8"])),
+                        ("parse_args:after", parse), ("get_defaults:after", lambda p=p: p.get_defaults())]
             for opname, fn in ops:
-                if "cfg" not in state and opname not in ("parse_args", "get_defaults", "parse_object", "format_help"):
+                if "cfg" not in state and opname in ("dump", "instantiate_classes", "instantiate_classes:second", "validate"):
                     continue
-                ob = observe(p, "%s:%s" % (label, opname), fn, {"given": given}, track_defaults=False)
+                ob = observe(p, "%s:%s" % (label, opname), fn, {"given": given}, track_defaults=class_typed)
                 # what the library hands out must not contain a writable container of the caller's object
                 if ob.outcome == "ok" and ob.result is not None and not isinstance(ob.result, str):
-                    shared = [i for kind, i in shape_of_result(ob.result, ob.registry) if i and kind in ("list", "dict", "ns", "odict")]
+                    shared = [i for kind, i in shape_of_result(ob.result, ob.registry) if i and kind in ("list", "dict", "ns", "odict", "dictsub")]
                     if shared and not all(finding_signature(ob.registry, i) for i in shared):
                         ctx.violation("%s hands out a writable container of the declared default the caller gave" % ob.label,
                                       dict(rep, op=ob.label, changes=[ob.registry.describe(i) for i in shared[:4]]))
@@ -1967,7 +2002,7 @@ def run(ctx: Ctx):
     # ---- generated scenarios
     n_sc = ctx.budget(100, 1200) * (2 if boost > 1 else 1)
     for i in range(n_sc):
-        if not ctx.thorough and ctx.elapsed() > 60:
+        if not ctx.thorough and ctx.elapsed() > 55:
             ctx.extra["stopped_early_after_scenarios"] = i
             break
         sc = gen_scenario(ctx.rng, odict=(i % 5 == 4))
